@@ -181,6 +181,37 @@ pub fn parse(text: &str) -> J {
 
 /// Cross-check of the harness parser against serde_json's own (shape, keys, strings, booleans;
 /// numbers only by kind where serde_json::Value can hold them).
+/// `serde_json::from_str`, cross-checked with the reader path of the same text: `from_reader` hands the
+/// visitors OWNED strings (`visit_str` / `visit_string`) where `from_str` can lend borrowed ones
+/// (`visit_borrowed_str`), so an impl that only works for one kind of string shows here.  The two
+/// paths must both fail or both succeed with values that re-encode identically; a disagreement stops
+/// the harness with the document in the message (reported by the driver as a broken correspondence).
+fn decode<T: serde::de::DeserializeOwned + serde::Serialize>(text: &str) -> Option<T> {
+    let borrowed: Option<T> = serde_json::from_str(text).ok();
+    let owned: Option<T> = serde_json::from_reader(text.as_bytes()).ok();
+    // compared as JSON trees with the members of every object sorted: two decoded hash maps re-encode
+    // their entries in different orders
+    fn sorted(j: J) -> J {
+        match j {
+            J::Obj(ms) => {
+                let mut ms: Vec<(String, J)> = ms.into_iter().map(|(k, v)| (k, sorted(v))).collect();
+                ms.sort_by(|a, b| a.0.cmp(&b.0));
+                J::Obj(ms)
+            }
+            J::Arr(xs) => J::Arr(xs.into_iter().map(sorted).collect()),
+            other => other,
+        }
+    }
+    let enc = |v: &Option<T>| v.as_ref().map(|x| format!("{:?}", sorted(parse(&serde_json::to_string(x).expect("serialize")))));
+    assert!(
+        enc(&borrowed) == enc(&owned),
+        "serde_json::from_str and serde_json::from_reader disagree on {text}: {:?} vs {:?}",
+        enc(&borrowed),
+        enc(&owned)
+    );
+    borrowed
+}
+
 fn self_check(j: &J, text: &str) {
     fn agree(j: &J, v: &serde_json::Value) -> bool {
         match (j, v) {
@@ -489,7 +520,7 @@ fn enc_event_case(sink: &mut Sink, samples: &mut Samples, idx: u64, kind: &str, 
     }
     let text = serde_json::to_string(e).expect("serialize event");
     let tree = parse(&text);
-    let redec: Option<TracingEvent> = serde_json::from_str(&text).ok();
+    let redec: Option<TracingEvent> = decode(&text);
     let reenc = redec.as_ref().map(|e2| parse(&serde_json::to_string(e2).unwrap()));
     let fl = floats_ok(event_values(e), sink);
     sink.bump(&format!("variant:{}", variant_name(e)));
@@ -515,7 +546,7 @@ fn nonfinite_case(sink: &mut Sink, idx: u64, bits: u64) {
     }
     let v = TracedValue::Float(f64::from_bits(bits));
     let text = serde_json::to_string(&v).unwrap();
-    let dec: Option<TracedValue> = serde_json::from_str(&text).ok();
+    let dec: Option<TracedValue> = decode(&text);
     let judge = format!("judge_nonfinite_value {bits} {} {}", cj(&parse(&text)), copt(dec.as_ref(), ctv));
     sink.bump("float:non-finite");
     sink.case(idx, "nonfinite", &judge, &format!("{bits}"), true, || serde_json::json!({ "bits": bits, "text": text }));
@@ -593,7 +624,7 @@ fn enc_spans_case(sink: &mut Sink, samples: &mut Samples, idx: u64, kind: &str, 
         return;
     }
     let doc = text_of(&jspans(m));
-    let decoded: Option<PersistedSpans> = serde_json::from_str(&doc).ok();
+    let decoded: Option<PersistedSpans> = decode(&doc);
     let out = decoded.as_ref().map(|p| serde_json::to_string(p).unwrap());
     if let Some(t) = &out {
         if samples.spans.len() < 100 {
@@ -627,7 +658,7 @@ fn enc_metadata_case(sink: &mut Sink, samples: &mut Samples, idx: u64, kind: &st
     if samples.metadata.len() < 100 {
         samples.metadata.push(text.clone());
     }
-    let redec: Option<PersistedMetadata> = serde_json::from_str(&text).ok();
+    let redec: Option<PersistedMetadata> = decode(&text);
     let reenc = redec.as_ref().map(|p| parse(&serde_json::to_string(p).unwrap()));
     let input = cmeta(&m);
     let judge = format!(
@@ -679,7 +710,7 @@ fn real_receiver_case(sink: &mut Sink, samples: &mut Samples, idx: u64, r: &mut 
         if samples.spans.len() < 200 {
             samples.spans.push(text.clone());
         }
-        let redec: Option<PersistedSpans> = serde_json::from_str(&text).ok();
+        let redec: Option<PersistedSpans> = decode(&text);
         let reenc = redec.as_ref().map(|p| parse(&serde_json::to_string(p).unwrap()));
         let judge = format!("judge_real_spans {} {}", cj(&parse(&text)), copt(reenc.as_ref(), cj));
         sink.bump(&format!("real:spans {}", spans.len().min(9)));
@@ -1039,7 +1070,7 @@ fn dec_event_case(sink: &mut Sink, idx: u64, r: &mut Rng) {
     let (doc, benign, expect, label) = perturb_event(r, &e, &base);
     let text = text_of(&doc);
     let tree = parse(&text);
-    let impl_out: Option<TracingEvent> = serde_json::from_str(&text).ok();
+    let impl_out: Option<TracingEvent> = decode(&text);
     sink.bump(&format!("perturb:{label}"));
     sink.bump(if impl_out.is_some() { "dec:accepted" } else { "dec:rejected" });
     let input = format!("{} {} {}", cbool(benign), copt(expect.as_ref(), cevent), cj(&tree));
@@ -1137,7 +1168,7 @@ fn dec_spans_case(sink: &mut Sink, idx: u64, r: &mut Rng) {
     }
     let text = text_of(&doc);
     let tree = parse(&text);
-    let decoded: Option<PersistedSpans> = serde_json::from_str(&text).ok();
+    let decoded: Option<PersistedSpans> = decode(&text);
     let out = decoded.as_ref().map(|p| parse(&serde_json::to_string(p).unwrap()));
     sink.bump(&format!("perturb:{label}"));
     sink.bump(if decoded.is_some() { "dec:accepted" } else { "dec:rejected" });
@@ -1241,7 +1272,7 @@ fn dec_metadata_case(sink: &mut Sink, idx: u64, r: &mut Rng) {
     }
     let text = text_of(&doc);
     let tree = parse(&text);
-    let decoded: Option<PersistedMetadata> = serde_json::from_str(&text).ok();
+    let decoded: Option<PersistedMetadata> = decode(&text);
     sink.bump(&format!("perturb:{label}"));
     sink.bump(if decoded.is_some() { "dec:accepted" } else { "dec:rejected" });
     let expect = if benign { format!("(Some {})", cmeta(&m)) } else { "None".to_owned() };
